@@ -158,14 +158,19 @@ def _write_and_invalidate(obj, attr, value, metadata, inplace, skip_invalidation
         raise
 
     # Invalidate any caches depending on this attribute
-    if not skip_invalidation and metadata and metadata.invalidation_map:
+    invalidation_map = (
+        metadata.invalidation_map_for(type(obj))
+        if metadata and not skip_invalidation
+        else None
+    )
+    if invalidation_map:
         with unfrozen(obj, only_if=not inplace):
-            invalidate_attrs(obj, attr, metadata.invalidation_map)
+            invalidate_attrs(obj, attr, invalidation_map)
 
 
 def invalidate_attrs(obj: Any, attr: str, invalidation_map: Dict[str, Set[str]] = None):
     if invalidation_map is None:
-        invalidation_map = obj.__spec_class__.invalidation_map
+        invalidation_map = obj.__spec_class__.invalidation_map_for(type(obj))
     if not invalidation_map:
         return
 
